@@ -81,3 +81,11 @@ def fresh_parser(**kw):
 
 
 _fresh = []
+
+
+def warm_tabs():
+    """generate the default lextab/yacctab modules once (in the parent) so that forked workers and
+    subprocesses sharing the scratch copy only ever read them"""
+    from calmjs.parse.parsers import es5
+    es5.Parser()
+    es5.Parser()
